@@ -33,9 +33,11 @@ type Case struct {
 	Seed     uint64 `json:"seed"`   // derives reply kinds and answer permutations
 	Chunks   string `json:"chunks"` // "frame", "one", "bytes", "cuts"
 	CutEvery int    `json:"cutevery,omitempty"`
-	NoKinds  bool   `json:"nokinds,omitempty"` // all replies are matching R messages
-	Volume   int    `json:"volume,omitempty"`  // mode volume: total number of calls
-	Perm     []int  `json:"perm,omitempty"`    // explicit answer order for the first batch (enumeration)
+	NoKinds  bool   `json:"nokinds,omitempty"`  // all replies are matching R messages
+	Volume   int    `json:"volume,omitempty"`   // mode volume: total number of calls
+	Perm     []int  `json:"perm,omitempty"`     // explicit answer order for the first batch (enumeration)
+	BigReads bool   `json:"bigreads,omitempty"` // every Read asks for msize-24 bytes (fills the receive buffer quickly)
+	Lag      bool   `json:"lag,omitempty"`      // tag mode: the consumer reads completions only after all replies were written
 }
 
 const deadline = 20 * time.Second
@@ -294,6 +296,14 @@ func run(c *Case) error {
 		fid := clnt.FidAlloc()
 		fid.Iounit = c.Msize - 24
 		walked := false
+		type kept struct {
+			b   []byte
+			fid uint32
+			off uint64
+			cnt uint32
+			k   int
+		}
+		var retained []kept
 		for k := 0; (n == 0 && k < len(ops)) || (n > 0 && k < n); k++ {
 			if f.get() != nil {
 				return
@@ -329,6 +339,9 @@ func run(c *Case) error {
 				fid.Iounit = c.Msize - 24
 			case "read":
 				cnt := op.Count % (c.Msize - 24 + 1)
+				if c.BigReads {
+					cnt = c.Msize - 24
+				}
 				var b []byte
 				var err error
 				call(func() { b, err = clnt.Read(fid, off, cnt) })
@@ -336,6 +349,17 @@ func run(c *Case) error {
 					if !bytes.Equal(b, peer.ReadData(fid.Fid, off, cnt)) {
 						f.set("%s: Read(fid %d, off %d, count %d) returned data that is not the reply to this request (%d bytes)", what, fid.Fid, off, cnt, len(b))
 					}
+					// the returned slice belongs to the caller: it must still hold the
+					// same bytes after any number of later calls
+					retained = append(retained, kept{b, fid.Fid, off, cnt, k})
+				}
+				for _, r := range retained {
+					if !bytes.Equal(r.b, peer.ReadData(r.fid, r.off, r.cnt)) {
+						f.set("%s: the data returned by the Read of op %d (fid %d, off %d) was overwritten by a later reply", what, r.k, r.fid, r.off)
+					}
+				}
+				if len(retained) > 24 {
+					retained = retained[1:]
 				}
 			case "write":
 				n := int(op.Count % (c.Msize - 24 + 1))
@@ -437,7 +461,7 @@ func rootOr(root, alt *go9p.Fid) *go9p.Fid {
 
 // runTag: the pipelined Tag interface — requests sharing a tag complete in the order issued.
 func runTag(c *Case, p *peer.Peer, clnt *go9p.Clnt) error {
-	reqchan := make(chan *go9p.Req, 64)
+	reqchan := make(chan *go9p.Req, 16)
 	tag := clnt.TagAlloc(reqchan)
 	fid := clnt.FidAlloc()
 	n := 0
@@ -491,6 +515,13 @@ func runTag(c *Case, p *peer.Peer, clnt *go9p.Clnt) error {
 		cuts = append(cuts, i)
 	}
 	_ = p.Write(stream, cuts)
+	if c.Lag {
+		// let the completions pile up behind the consumer
+		for i := 0; i < 200 && p.End.Unread() > 0; i++ {
+			time.Sleep(100 * time.Microsecond)
+		}
+		time.Sleep(3 * time.Millisecond)
+	}
 	for i := 0; i < n; i++ {
 		select {
 		case r := <-reqchan:
@@ -585,6 +616,7 @@ func TestPropCalls(t *testing.T) {
 		c.Seed = rapid.Uint64().Draw(t, "seed")
 		c.Chunks = rapid.SampledFrom([]string{"frame", "one", "bytes", "cuts"}).Draw(t, "chunks")
 		c.CutEvery = rapid.IntRange(1, 40).Draw(t, "cutevery")
+		c.BigReads = rapid.IntRange(0, 3).Draw(t, "bigreads") == 0
 		if err := execute("calls", c); err != nil {
 			hx.Failf(t, "calls", c, "%v", err)
 		}
@@ -594,7 +626,8 @@ func TestPropCalls(t *testing.T) {
 func TestPropTag(t *testing.T) {
 	hx.Check(t, "tag", hx.N(150, 1500), func(t *rapid.T) {
 		c := &Case{Mode: "tag", Dotu: rapid.Bool().Draw(t, "dotu"), Msize: 8192, Seed: rapid.Uint64().Draw(t, "seed"), CutEvery: rapid.IntRange(1, 60).Draw(t, "cutevery")}
-		n := rapid.IntRange(2, 16).Draw(t, "n")
+		n := rapid.OneOf(rapid.IntRange(2, 16), rapid.IntRange(17, 120)).Draw(t, "n")
+		c.Lag = rapid.Bool().Draw(t, "lag")
 		var ops []Op
 		for i := 0; i < n; i++ {
 			ops = append(ops, Op{Kind: rapid.SampledFrom([]string{"read", "write", "stat"}).Draw(t, "kind"), Count: rapid.Uint32Range(0, 1999).Draw(t, "count")})
